@@ -26,3 +26,8 @@ Definition judge_history (c : dsnap * scheme * list hstep) : nat :=
     forallb (fun h => dsnap_eqb d0 (h_ds h) && scheme_eqb s0 (h_scheme h) && h_name_same h
                       && h_same_as_fresh h && h_same_twice h) steps in
   code true spec.
+
+(** two phases of one history on the same shared dataset and the same shared ALGORITHM objects, under two schemes that agree on
+    their first three penalties: state kept by an algorithm object between calls would show in the second phase *)
+Definition judge_history2 (c : (dsnap * scheme * list hstep) * (dsnap * scheme * list hstep)) : nat :=
+  Nat.lor (judge_history (fst c)) (judge_history (snd c)).
